@@ -176,7 +176,7 @@ func atomEq(a, b *Atom) *Term {
 	case "opaque":
 		return mkBool(a.id == b.id)
 	case "sig":
-		return tAnd(tEq(a.key, b.key), jEq(a.tree, b.tree))
+		return tAnd(tAnd(tEq(a.key, b.key), strEq(a.alg, b.alg)), jEq(a.tree, b.tree))
 	case "json":
 		return jEq(a.tree, b.tree)
 	}
@@ -500,13 +500,50 @@ func (e *Engine) next(fr *Frame, in *ssa.Next) {
 			cands = nil
 		}
 	}
-	if len(cands) > 1 {
+	switch {
+	case len(cands) <= 1 || e.sh.fixedMapOrder:
+		// single candidate, or a harness that states it runs with insertion order only
+		if len(cands) > 0 {
+			pick = cands[0]
+		}
+	case len(it.orig) <= 4:
+		// small maps: every order
 		e.mapNondet = true
-	}
-	for i, c := range cands {
-		if i == len(cands)-1 || e.decide(e.fresh("maporder", true)) {
-			pick = c
-			break
+		for i, c := range cands {
+			if i == len(cands)-1 || e.decide(e.fresh("maporder", true)) {
+				pick = c
+				break
+			}
+		}
+	default:
+		// larger maps: every rotation of the insertion order (Go's runtime
+		// starts at a random position and then walks on)
+		e.mapNondet = true
+		if !it.started {
+			it.started = true
+			for i, c := range cands {
+				if i == len(cands)-1 || e.decide(e.fresh("maprot", true)) {
+					pick = c
+					break
+				}
+			}
+			// remember the cyclic successor order
+			for i, c := range it.m.entries {
+				if c == pick {
+					it.cycle = append(append([]*MapEntry{}, it.m.entries[i:]...), it.m.entries[:i]...)
+				}
+			}
+		} else {
+			for _, c := range it.cycle {
+				for _, d := range cands {
+					if c == d && pick == nil {
+						pick = c
+					}
+				}
+			}
+			if pick == nil {
+				pick = cands[0]
+			}
 		}
 	}
 	if pick == nil {
@@ -865,12 +902,21 @@ func (e *Engine) implements(t types.Type, it *types.Interface) bool {
 	return types.Implements(t, it)
 }
 
+func (e *Engine) implementsVal(x IfaceVal, it *types.Interface) bool {
+	if x.typ == e.sh.marks.opaque {
+		if obj, ok := opaqueObj(x); ok {
+			return e.absImplements(obj, it)
+		}
+	}
+	return e.implements(x.typ, it)
+}
+
 func (e *Engine) typeAssert(fr *Frame, in *ssa.TypeAssert) {
 	x := e.get(fr, in.X).(IfaceVal)
 	var ok bool
 	var res Value
 	if it, isIface := in.AssertedType.Underlying().(*types.Interface); isIface {
-		ok = x.typ != nil && e.implements(x.typ, it)
+		ok = x.typ != nil && e.implementsVal(x, it)
 		res = x
 	} else {
 		ok = x.typ != nil && types.Identical(x.typ, in.AssertedType)
@@ -932,7 +978,7 @@ func (e *Engine) invoke(recv IfaceVal, method *types.Func, args []Value) Value {
 	if recv.typ == e.sh.marks.fmtErr {
 		return e.fmtErrMethod(recv, name, args)
 	}
-	if v, ok := e.invokeIntrinsic(recv, name, args); ok {
+	if v, ok := e.invokeIntrinsic(recv, method, args); ok {
 		return v
 	}
 	m := e.sh.prog.LookupMethod(recv.typ, method.Pkg(), name)
